@@ -56,7 +56,7 @@ impl<T: Close + High + Low> Next<&T> for CommodityChannelIndex {
     fn next(&mut self, input: &T) -> Self::Output {
         let tp = (input.close() + input.high() + input.low()) / 3.0;
         let sma = self.sma.next(tp);
-        let mad = self.mad.next(input);
+        let mad = self.mad.next(tp);
 
         if mad == 0.0 {
             return 0.0;
